@@ -61,6 +61,12 @@ def same_members_except(o, n, removed=None):
     return ForAll([k, v], body, patterns=[MultiPattern(Has(grp(o, k), v), Has(K(o), k))])
 
 
+def order_kept(o, n):
+    """the leaders that remain keep their relative order"""
+    x, y = fv('x'), fv('y')
+    return ForAll([x, y], Implies(And(Has(L(n), x), Has(L(n), y)), (Idx(L(n), x) < Idx(L(n), y)) == (Idx(L(o), x) < Idx(L(o), y))), patterns=[MultiPattern(Idx(L(n), x), Idx(L(n), y))])
+
+
 def frame_groups(o, n, changed):
     """all groups other than `changed` leaders keep their members"""
     v = fv('v'); return ForAll([v], Implies(And(*[v != c for c in changed]), grp(n, v) == grp(o, v)), patterns=[grp(n, v)])
@@ -118,6 +124,7 @@ def group_post(o, n, r):
         ('frame_other_groups', Implies(d != k, frame_groups(g0, g1, [d, k]))),
         ('no_value_lost', same_members_except(g0, g1)),
         ('wf', WF(g1)),
+        ('remaining_leaders_keep_their_relative_order', order_kept(g0, g1)),
     ]
 spec(qual='GroupedList.group', params=[('self', GL), ('discarded', VAL), ('kept', VAL)], modifies=['self'],
      requires=lambda o: WF(o['self']),
@@ -186,7 +193,7 @@ def gl_state(g0, g, td, keep, n):
         # leaders not yet processed are still leaders, with their original members
         ForAll([j], Implies(And(n <= j, j < Len(td)), And(Has(L(g), At(td, j)), Implies(At(td, j) != keep, grp(g, At(td, j)) == grp(g0, At(td, j))))), patterns=[At(td, j)]),
         ForAll([x], Implies(And(x != keep, Not(Has(td, x))), And(grp(g, x) == grp(g0, x), Has(L(g), x) == Has(L(g0), x))), patterns=[grp(g, x)]),
-        same_members_except(g0, g))
+        same_members_except(g0, g), order_kept(g0, g))
 
 def group_list_req(o):
     g, td, keep = o['self'], o['to_discard'], o['to_keep']; j = Int('jr')
